@@ -123,6 +123,8 @@ func NewFuture(ctx context.Context, fn MalFunc) *Future {
 	go func() {
 		defer func() { f.Done = true }()
 		res, err := Apply(ctx, fn, nil)
+		// the future is done before its outcome can be observed by a deref
+		f.Done = true
 		if err != nil {
 			f.ErrChan <- err
 			return
